@@ -304,7 +304,7 @@ theorem C03_fresh_is_core_rhs (c : Content) (hd : c.data = []) (vals : List Rat)
         apply List.filter_eq_self.mpr
         intro kv _
         rfl
-      simp only [pure, Except.pure, this, List.append_nil]
+      simp only [pure, Except.pure, this, List.append_nil, rhsFromArgs2_same]
 
 /-! ## the sanity checks of `_create_cache` (function arities) -/
 
